@@ -111,6 +111,10 @@ def run_case(idx, rng, P, rep):
     model_objs = list(objs)
     model_names = collections.OrderedDict(zip(names, objs)) if style == 'dict' else None
     decl = dict(zip(names, objs)) if style == 'dict' else list(objs)
+    if style == 'dict' and rng.random() < 0.3:
+        # (any mapping: an OrderedDict is a common way to spell named objects)
+        decl = collections.OrderedDict(decl)
+        rep.count('declared_with_ordered_dict')
     ptype = getattr(param, kind)
     strict = rng.random() < 0.7
     # check_on_set=False: a value assignment outside the objects is accepted and the object is appended
